@@ -279,11 +279,6 @@ class MultiAxisLabels(Contract):
         members = [S.array1d("m%d" % i, case["kinds"][i]) for i in range(case["k"])]
         return {"members": members}
 
-    def known_regions(self, S, case, env):
-        # open finding: np.array(list of label tuples) has ONE dtype, so members of different kinds are converted to a common
-        # one (numbers next to strings become strings, integers next to floats become floats)
-        return {"members-of-different-kinds": len(set(case["kinds"])) > 1 and all(len(L) > 0 for L in env["members"])}
-
     def call(self, fn, env):
         S = env["S"]
         return _multiaxis()(*[S.da.Axis(L, "g%d" % i) for i, L in enumerate(env["members"])])
